@@ -585,6 +585,8 @@ class Interp:
                 return symstr.lift(l) + symstr.lift(r)
             if isinstance(l, str) and isinstance(r, str) and isinstance(e.op, ast.Add):
                 return l + r
+            if isinstance(e.op, ast.Sub) and isinstance(l, (set, frozenset)) and isinstance(r, (set, frozenset)):
+                return l - r          # a new set
             if isinstance(l, (SInt, int)) and isinstance(r, (SInt, int)):
                 l2 = l if isinstance(l, SInt) else SInt(l)
                 return l2 + r if isinstance(e.op, ast.Add) else l2 - r
